@@ -3,6 +3,7 @@ package c18
 import (
 	"errors"
 	"fmt"
+	"reflect"
 	goruntime "runtime"
 	"strings"
 
@@ -39,6 +40,12 @@ import (
 
 type haltStruct struct{ code int }
 
+// haltRich is an uncomparable struct (== on two of them panics at run time).
+type haltRich struct {
+	Reason  string
+	Pending []string
+}
+
 type haltErrStruct struct{ msg string }
 
 func (h haltErrStruct) Error() string { return h.msg }
@@ -65,6 +72,11 @@ var intPayloads = []intPayload{
 	{name: "error_pointer", make: func(*otto.Otto) (interface{}, bool) { return errors.New("halt"), false }},
 	{name: "error_struct", make: func(*otto.Otto) (interface{}, bool) { return haltErrStruct{"halt"}, false }},
 	{name: "struct", make: func(*otto.Otto) (interface{}, bool) { return haltStruct{7}, false }},
+	{name: "struct_pointer", make: func(*otto.Otto) (interface{}, bool) { return &haltStruct{7}, false }},
+	{name: "uncomparable_struct", make: func(*otto.Otto) (interface{}, bool) { return haltRich{"quota", []string{"a", "b"}}, false }},
+	{name: "slice", make: func(*otto.Otto) (interface{}, bool) { return []string{"halt"}, false }},
+	{name: "map", make: func(*otto.Otto) (interface{}, bool) { return map[string]int{"halt": 1}, false }},
+	{name: "func", make: func(*otto.Otto) (interface{}, bool) { return func() string { return "halt" }, false }},
 	{name: "nil", make: func(*otto.Otto) (interface{}, bool) { return nil, true }},
 	{name: "string", primitive: true, jsText: "string:stop", jsCanon: "s:stop", make: func(*otto.Otto) (interface{}, bool) { return "stop", false }},
 	{name: "int", primitive: true, jsText: "number:42", jsCanon: "d:42", make: func(*otto.Otto) (interface{}, bool) { return 42, false }},
@@ -80,33 +92,49 @@ func runInterruptValue(r *engine.Run) {
 		names[i] = p.name
 	}
 	r.Bound("panic_values", strings.Join(names, ","))
-	r.Bound("programs", fmt.Sprintf("%d depth-1 wrappers x body asg", len(wrappers)))
-	for wi := range wrappers {
-		p := makeProg([]int{wi}, bodyAsg)
-		if !owns(r, p.key) {
-			continue
-		}
-		if r.Expired() {
-			r.Cap("time budget reached before all programs were explored")
-			return
-		}
-		r.Begin(p.key + "|reference")
-		ref, err := reference(p, r.Thorough())
-		r.End()
-		if err != nil {
-			r.HarnessError("runtime setup failed: " + err.Error())
-			return
-		}
-		for pi, pay := range intPayloads {
-			for k := 0; k < ref.n; k++ {
-				key := fmt.Sprintf("%s|v%d.%s|%d", p.key, pi, pay.name, k)
-				if !wantCase(r, key) {
+	r.Bound("programs", fmt.Sprintf("%d wrappers (depth 1; depth 2 thorough) x bodies asg, throw_tostring", len(wrappers)))
+	// the quick tier keeps one value per way tryCatchEvaluate / catchPanic can treat it
+	quickValues := map[string]bool{"error_pointer": true, "struct_pointer": true, "uncomparable_struct": true, "nil": true, "string": true, "int": true, "otto_value": true, "otto_error": true}
+	viaToString := map[string]bool{"error_pointer": true, "string": true, "uncomparable_struct": true}
+	deep := map[string]bool{"string": true, "uncomparable_struct": true}
+	r.Bound("depth2_values_thorough", "string, uncomparable_struct")
+	for _, nest := range nestings(depthFor(r, true)) {
+		for _, b := range []body{bodyAsg, bodyThrowTS} {
+			p := makeProg(nest, b)
+			if !owns(r, p.key) {
+				continue
+			}
+			if r.Expired() {
+				r.Cap("time budget reached before all programs were explored")
+				return
+			}
+			r.Begin(p.key + "|reference")
+			ref, err := reference(p, r.Thorough())
+			r.End()
+			if err != nil {
+				r.HarnessError("runtime setup failed: " + err.Error())
+				return
+			}
+			for pi, pay := range intPayloads {
+				if len(nest) > 1 && !deep[pay.name] {
 					continue
 				}
-				r.Begin(key)
-				checkInterruptValue(r, p, ref, pay, k, key)
-				r.End()
-				r.Tree(1, 1)
+				if b.name == bodyThrowTS.name && !viaToString[pay.name] {
+					continue
+				}
+				if !r.Thorough() && !quickValues[pay.name] {
+					continue
+				}
+				for k := 0; k < ref.n; k++ {
+					key := fmt.Sprintf("%s|v%d.%s|%d", p.key, pi, pay.name, k)
+					if !wantCase(r, key) {
+						continue
+					}
+					r.Begin(key)
+					checkInterruptValue(r, p, ref, pay, k, key)
+					r.End()
+					r.Tree(1, 1)
+				}
 			}
 		}
 	}
@@ -150,7 +178,7 @@ func checkInterruptValue(r *engine.Run, p *prog, ref *refRun, pay intPayload, k 
 		if _, ok := e.out.pan.(*goruntime.PanicNilError); ok {
 			outcome = "panic:identical-value"
 		}
-	case e.out.panicked && e.out.pan == val:
+	case e.out.panicked && identicalValue(e.out.pan, val):
 		outcome = "panic:identical-value"
 	}
 	exp := describe("panic:identical-value", deliveredWant, 0, 0, restClean, ref.snaps[k], logString(ref.log[:ref.logLen[k]]))
@@ -161,6 +189,7 @@ func checkInterruptValue(r *engine.Run, p *prog, ref *refRun, pay intPayload, k 
 	}
 	if exp != obs {
 		aux := map[string]string{"kind": "interrupt-value", "payload": pay.name, "primitive": b01(pay.primitive), "in_tce": b01(e.delivTCE),
+			"in_uncaught": b01(e.delivUnc), "dropped_text": b01(droppedByUncaughtString(e)),
 			"delivered": "bad", "panicked": b01(e.out.panicked), "surfaced": "0", "rest": "dirty"}
 		if e.delivery(e.out.gid) == deliveredWant {
 			aux["delivered"] = "ok"
@@ -177,10 +206,34 @@ func checkInterruptValue(r *engine.Run, p *prog, ref *refRun, pay intPayload, k 
 		r.Mismatch(engine.Mismatch{Key: key, Input: input, Expected: exp, Observed: obs, Aux: aux})
 		return
 	}
+	if k%3 != 0 {
+		return // reusability after an interrupt halt is the interrupt-panic family's subject; sampled here
+	}
 	if fu := s.followUp(e.final); fu != followUpExpected {
 		r.Mismatch(engine.Mismatch{Key: key, Input: "follow-up program after: " + input, Expected: followUpExpected, Observed: fu,
 			Aux: map[string]string{"kind": "followup"}})
 	}
+}
+
+// identicalValue: the value Run unwound with IS the value the interrupt function
+// panicked with - same dynamic type and == where the type is comparable, the same
+// code pointer for funcs, reflect.DeepEqual otherwise (slices, maps, structs
+// holding them).
+func identicalValue(got, want interface{}) bool {
+	if got == nil || want == nil {
+		return got == nil && want == nil
+	}
+	tg, tw := reflect.TypeOf(got), reflect.TypeOf(want)
+	if tg != tw {
+		return false
+	}
+	switch {
+	case tg.Kind() == reflect.Func:
+		return reflect.ValueOf(got).Pointer() == reflect.ValueOf(want).Pointer()
+	case tg.Comparable():
+		return got == want
+	}
+	return reflect.DeepEqual(got, want)
 }
 
 // sigInterruptPrimitiveCaught accepts exactly: the interrupt function panicked with a
